@@ -56,12 +56,16 @@ Definition pred_bits (s : list bool) (x : N) : bool * list bool :=
 (* stateless: retain x iff x mod 3 <> 0 (the doc test of tree.rs) *)
 Definition pred_mod3 (s : unit) (x : N) : bool * unit := (negb (N.eqb (N.modulo x 3) 0), tt).
 
+(* the harness' trees hold numbers below 100; their Display is the decimal numeral *)
+Definition show_dec2 (n : N) : str := if N.ltb n 10 then [48 + n] else [48 + N.div n 10; 48 + N.modulo n 10].
+
 Inductive case :=
 | CResolve (rs : list resolver) (fs : files) (roots : list (coord * scope)) (ans : res (list found))
     (* get_maven_dependencies *)
 | CRetainSeen (k : N) (F : list (tree N)) (ans : list (tree N))     (* Forest::breadth_first_retain *)
 | CRetainBits (bits : list bool) (F : list (tree N)) (ans : list (tree N))
 | CRetainMod3 (F : list (tree N)) (ans : list (tree N))
+| CTreeShow (ascii : bool) (t : tree N) (ans : str)                 (* Display / Debug for Tree, FormattedTree with either palette *)
 | CBfs (F : list (tree N)) (ans : list N)                           (* Forest::into_breadth_first and ::breadth_first *)
 | CCoordParse (s : str) (ans : res coord)                           (* MavenCoord::from_str *)
 | CCoordPrint (c : coord) (ans : str)                               (* Display for MavenCoord *)
@@ -69,6 +73,8 @@ Inductive case :=
 | CFoundParse (s : str) (ans : res found)                           (* FoundDependency::try_from *)
 | CScopeParse (s : str) (ans : res scope)                           (* DependencyScope::from_str *)
 | CScopePrint (s : scope) (ans : str)
+| CFoundUrl (d : found) (ans : str)                                 (* FoundDependency::make_url -> MavenCoord::make_url *)
+| CCoordGav (g a v : str) (ans : coord)                             (* MavenCoord::from_group_artifact_version *)
 | CAcyclic (rs : list resolver) (fs : files) (ranks : list (str * N)).
     (* a generated acyclic universe with the ranks of its documents: the hypothesis of fuel_suffices holds *)
 
@@ -78,6 +84,7 @@ Definition check (c : case) : bool :=
   | CRetainSeen k F ans => list_eqb (tree_eqb N.eqb) (breadth_first_retain (pred_seen k) [] F) ans
   | CRetainBits bits F ans => list_eqb (tree_eqb N.eqb) (breadth_first_retain pred_bits bits F) ans
   | CRetainMod3 F ans => list_eqb (tree_eqb N.eqb) (breadth_first_retain pred_mod3 tt F) ans
+  | CTreeShow ascii t ans => str_eqb (show_tree show_dec2 (if ascii then palette_ascii else palette_graph) t) ans
   | CBfs F ans => list_eqb N.eqb (breadth_first F) ans
   | CCoordParse s ans => res_eqb coord_eqb (parse_coord s) ans
   | CCoordPrint c ans => str_eqb (print_coord c) ans
@@ -85,6 +92,8 @@ Definition check (c : case) : bool :=
   | CFoundParse s ans => res_eqb found_eqb (parse_found s) ans
   | CScopeParse s ans => res_eqb scope_eqb (parse_scope s) ans
   | CScopePrint s ans => str_eqb (print_scope s) ans
+  | CFoundUrl d ans => str_eqb (make_url (f_resolver d) (f_coord d)) ans
+  | CCoordGav g a v ans => coord_eqb (from_group_artifact_version g a v) ans
   | CAcyclic rs fs ranks => acyclic_check fs rs (map (fun kv => (fst kv, N.to_nat (snd kv))) ranks)
   end.
 
